@@ -266,6 +266,8 @@ func init() {
 		// ---- time (native on concrete arguments; time.Time is an opaque host value)
 		"time.Parse":           extTimeParse,
 		"time.ParseInLocation": extTimeParse,
+		"time.Now":             func(fr *frame, args []value) value { return native{time.Unix(1790000000, 0).UTC()} }, // a fixed instant: the clock is not an input of any harness
+		"time.Since":           func(fr *frame, args []value) value { return fr.i.b.BV(SBV64, 0) },
 		"(time.Time).UTC":      func(fr *frame, args []value) value { return native{hostTime(fr, args[0]).UTC()} },
 		"(time.Time).Format":   func(fr *frame, args []value) value { return hostTime(fr, args[0]).Format(fr.i.concreteArg(args[1], "time layout")) },
 		"(time.Time).String":   func(fr *frame, args []value) value { return hostTime(fr, args[0]).String() },
